@@ -22,6 +22,7 @@ BOUNDS = {
               dict(N=4, K=3, depths=(1, 2), modes=("r0",), grouped=(False,)),
               dict(N=4, K=3, depths=(1, 2), modes=("r0", "rp"), grouped=(False,), kinds=hitx.KINDS_LBL),
               dict(N=4, K=2, depths=(1, 2), modes=("r0", "rp", "rk"), grouped=hitx.HOWS),
+              dict(N=4, K=3, depths=(1, 2, 3), modes=("rs",), grouped=(False,), kinds=hitx.KINDS_RS),
               dict(N=4, K=3, depths=(1, 2), modes=("r0",), grouped=("shared", "bound"), kinds=("p", "q", "d1", "k"))],
         ties=[],
         streams="quick",
@@ -33,6 +34,7 @@ BOUNDS = {
               dict(N=5, K=3, depths=(1, 2, 3), modes=("r0", "rd"), grouped=(False,)),
               dict(N=5, K=3, depths=(1, 2), modes=("r0", "rp"), grouped=(False,), kinds=hitx.KINDS_LBL),
               dict(N=4, K=3, depths=(1, 2), modes=("r0", "rp", "rk"), grouped=hitx.HOWS),
+              dict(N=4, K=3, depths=(1, 2, 3), modes=("rs",), grouped=(False,), kinds=hitx.KINDS_RS),
               dict(N=4, K=4, depths=(1, 2), modes=("r0",), grouped=("shared", "bound"), kinds=("p", "q", "d1", "k"))],
         ties=[dict(N=4, K=4, depths=(1, 2), modes=("r0",), grouped=(False,))],
         streams="thorough",
@@ -162,7 +164,7 @@ def check_entry_point(rec, T, hits, depth, mode, grouped, model_tup, size):
 
 
 def run_config(rec, T, hits, depth, mode, grouped):
-    size = len(hits) * 100 + max(depth, 0) * 10 + hitx.MODES.index(mode) + (5 if grouped else 0)
+    size = len(hits) * 100 + max(depth, 0) * 10 + hitx.ALL_MODES.index(mode) + (5 if grouped else 0)
     w = {"engine": "hitx", "T": T, "hits": [list(h) for h in hits], "depth": depth, "mode": mode, "grouped": grouped}
     rec.count("evaluations")
     ok, run = rec.guard("C06.total", w, size, hitx.execute, T, hits, depth, mode, grouped)
